@@ -204,16 +204,16 @@ fn vio(r: &mut Report, what: String, a: &MMappings, b: &MMappings, got: &str) {
 	r.violation(what.clone(), format!("property C09 (Mappings::merge)\nwhat: {what}\n--- A (namespaces s, a)\n{}--- B (namespaces s, b)\n{}--- implementation answered\n{got}\n--- Gallina\nA := {}\nB := {}\n", dump(a), dump(b), g_mappings(a), g_mappings(b)));
 }
 
-// ---------- compact Gallina: every distinct string of a case is let-bound once ----------
+// ---------- compact Gallina (CMergeT): a string table per case, strings written as [index] ----------
 // (A, B and the result share almost all of their strings; Coq spends its time elaborating
 // the literals, not evaluating the model)
 #[derive(Default)]
 struct Intern { tbl: Vec<S>, idx: HashMap<S, usize> }
 impl Intern {
 	fn s(&mut self, s: &S) -> String {
-		if let Some(i) = self.idx.get(s) { return format!("s{i}"); }
+		if let Some(i) = self.idx.get(s) { return format!("[{i}]"); }
 		let i = self.tbl.len(); self.tbl.push(s.clone()); self.idx.insert(s.clone(), i);
-		format!("s{i}")
+		format!("[{i}]")
 	}
 	fn names(&mut self, n: &NamesRow) -> String { let v: Vec<String> = n.iter().map(|o| gopt(o.as_ref().map(|s| self.s(s)))).collect(); glist(v) }
 	fn doc(&mut self, d: &Option<S>) -> String { gopt(d.as_ref().map(|s| self.s(s))) }
@@ -232,11 +232,10 @@ impl Intern {
 		format!("(mkMappings {} {} {})", glist(ns), self.doc(&m.doc), glist(cs))
 	}
 }
-fn g_case(a: &MMappings, b: &MMappings, got: &Option<MMappings>) -> String {
+fn g_case_t(a: &MMappings, b: &MMappings, got: &Option<MMappings>) -> String {
 	let mut i = Intern::default();
-	let body = format!("CMerge {} {} {}", i.mappings(a), i.mappings(b), gres(got.as_ref().map(|m| i.mappings(m))));
-	let lets: String = i.tbl.iter().enumerate().map(|(k, s)| format!("let s{k} : str := {} in ", gstr(s))).collect();
-	format!("({lets}{body})")
+	let body = format!("{} {} {}", i.mappings(a), i.mappings(b), gres(got.as_ref().map(|m| i.mappings(m))));
+	format!("CMergeT {} {body}", glist(i.tbl.iter().map(|s| gstr(s))))
 }
 
 // ---------- generators ----------
@@ -459,7 +458,9 @@ fn through(r: &mut Report, stream: &str, a: &MMappings, b: &MMappings) {
 		}
 	}
 	if let Ok(g) = &got {
-		r.case(stream, g_case(a, b, g));
+		// small cases verbatim (readable samples), the rest through the string table
+		if a.size() + b.size() <= 6 { r.case(stream, format!("CMerge {} {} {}", g_mappings(a), g_mappings(b), gres(g.as_ref().map(g_mappings)))); }
+		else { r.case(stream, g_case_t(a, b, g)); }
 	}
 }
 
@@ -480,7 +481,7 @@ pub fn run(ctx: &Ctx) -> anyhow::Result<Report> {
 		} else { r.notes.push("fixture files not readable".into()); }
 	}
 
-	let n = if ctx.thorough { 10000 } else { 1600 };
+	let n = if ctx.thorough { 12000 } else { 2400 };
 	for i in 0..n {
 		let mut cfg = GenCfg::new(2);
 		match i % 7 { 0 => { cfg.max_classes = 2; cfg.max_members = 2; } 1 => { cfg.max_classes = 4; cfg.max_members = 5; cfg.max_params = 5; } 2 => { cfg.docs = false; } _ => {} }
